@@ -20,7 +20,7 @@ ASSUMPTIONS = [
     'a fit() that raises on a sample is a rejected input for this property (counted per class)',
     'KDE: the CDF is defined net of the mass below min-5*std (<= 4e-6), so range/limit checks carry 1e-5 slack; probabilities '
     'within float32 eps of 0/1 map to -inf/+inf by design and are only required to be consistent with that',
-    'integral check: composite Gauss-Legendre on quantile knots, tolerance 1e-6 + 10 x |GL20-GL10|, larger estimates are inconclusive',
+    'integral check: composite 20-point Gauss-Legendre on quantile knots, error estimate = |fine - coarse knot set|; tolerance 1e-6 + 10 x estimate, estimates above 1e-6 are inconclusive',
 ]
 EPS32 = float(np.finfo(np.float32).eps)
 GL20 = np.polynomial.legendre.leggauss(20)
@@ -132,20 +132,22 @@ def integral_check(m, a, b, kde, what):
     if not (pb - pa > 1e-6) or not np.isfinite([a, b]).all():
         return 'skipped'
     nk = 513 if kde else 129
-    qs = np.linspace(pa, pb, nk)[1:-1]
-    qs = qs[(qs > EPS32 * 2) & (qs < 1 - EPS32 * 2)]
-    knots = f(m, 'percent_point', qs) if len(qs) else np.array([])
-    knots = np.unique(np.concatenate(([a], knots[(knots > a) & (knots < b)], [b])))
-    lo, hi = knots[:-1], knots[1:]
-    half, mid = (hi - lo) / 2, (hi + lo) / 2
     tot = {}
-    for name, (xs, ws) in (('20', GL20), ('10', GL10)):
+    for name, count in (('fine', 2 * nk - 1), ('coarse', nk)):
+        qs = np.linspace(pa, pb, count)[1:-1]
+        qs = qs[(qs > EPS32 * 2) & (qs < 1 - EPS32 * 2)]
+        knots = f(m, 'percent_point', qs) if len(qs) else np.array([])
+        knots = np.unique(np.concatenate(([a], knots[(knots > a) & (knots < b)], [b])))
+        lo, hi = knots[:-1], knots[1:]
+        half, mid = (hi - lo) / 2, (hi + lo) / 2
+        xs, ws = GL20
         pts = mid[:, None] + half[:, None] * xs[None, :]
         vals = f(m, 'probability_density', pts.ravel()).reshape(pts.shape)
         vals = np.where(np.isfinite(vals), vals, 0.0)           # integrable endpoint singularities (beta a<1)
         tot[name] = float(np.sum(half * (vals @ ws)))
-    est = abs(tot['20'] - tot['10'])
-    if est > 1e-5:
+    tot['20'] = tot['fine']
+    est = abs(tot['fine'] - tot['coarse'])
+    if est > 1e-6:
         return 'inconclusive'
     gap = abs(tot['20'] - (pb - pa))
     require(gap <= 1e-6 + 10 * est, '%s: integral of probability_density over [%r, %r] is %.8f but the CDF increment is %.8f'
@@ -189,8 +191,8 @@ def oracle(case):
     require(not np.isnan(p).any() and np.all(p >= 0), '%s: probability_density negative or NaN: %r at %r' % (what, p[~(p >= 0)][:3], fin[~(p >= 0)][:3]), tag='pdf-sign')
     lp = f(m, 'log_probability_density', fin)
     pos = np.isfinite(p) & (p > 1e-300)
-    require(np.all(np.abs(np.exp(lp[pos]) - p[pos]) <= 1e-9 * p[pos]), '%s: exp(log_probability_density) != probability_density: %r vs %r'
-            % (what, np.exp(lp[pos])[:3], p[pos][:3]), tag='logpdf')
+    require(np.all(np.abs(lp[pos] - np.log(p[pos])) <= 1e-6 * (1 + np.abs(lp[pos]))), '%s: log_probability_density != log(probability_density): %r vs %r'
+            % (what, lp[pos][:3], np.log(p[pos])[:3]), tag='logpdf')
     require(np.all(lp[np.isfinite(p) & (p == 0)] < -600), '%s: log density where the density is 0: %r' % (what, lp[p == 0][:3]), tag='logpdf')
     groups += 1
 
@@ -211,7 +213,12 @@ def oracle(case):
                 tag='ppf-infinite')
         below = f(m, 'cumulative_distribution', np.nextafter(xc, -np.inf))
         above = f(m, 'cumulative_distribution', np.nextafter(xc, np.inf))
-        tol = 1e-9 + (1e-9 * rng * f(m, 'probability_density', xc) if kde else 0)
+        dens_c = f(m, 'probability_density', xc)
+        dens_c = np.where(np.isfinite(dens_c), dens_c, 0.0)
+        pd_ = {} if kde else value(m.to_dict, what='to_dict')
+        mag = abs(float(pd_.get('loc', 0.0))) + abs(float(pd_.get('scale', 0.0)))
+        # x = loc + scale*z carries an absolute rounding error ~ eps*(|loc|+|scale|), i.e. eps*(...)*pdf in probability
+        tol = 1e-9 + (1e-9 * rng * dens_c if kde else 16 * np.finfo(float).eps * (mag + np.abs(xc)) * dens_c)
         bad = (below - tol > qc) | (above + tol < qc)
         require(not bad.any(), '%s: percent_point(%r)=%r but cdf just below/above is %r / %r' % (what, qc[bad][:2], xc[bad][:2], below[bad][:2], above[bad][:2]),
                 tag='ppf-inverse')
@@ -224,7 +231,9 @@ def oracle(case):
     if ok.any():
         back = f(m, 'percent_point', Fin[ok])
         dens = f(m, 'probability_density', xin[ok])
-        tolx = 1e-8 / np.maximum(dens, 1e-300) + 1e-9 * np.abs(xin[ok]) + 1e-12 * rng
+        pd2 = {} if kde else value(m.to_dict, what='to_dict')
+        mag2 = abs(float(pd2.get('loc', 0.0))) + abs(float(pd2.get('scale', 0.0)))
+        tolx = 1e-8 / np.maximum(dens, 1e-300) + 1e-9 * np.abs(xin[ok]) + 1e-12 * rng + 64 * np.finfo(float).eps * mag2
         good = np.abs(back - xin[ok]) <= tolx
         # flat stretches of the CDF (density ~ 0) make x non-unique: only the CDF value must agree
         if not good.all():
